@@ -234,7 +234,14 @@ def _shard_reset(shard, seed, tier):
             data, tls = rig.request(proto, sel)
             mark = len(srv.log())
             got, err = srv.fetch(data, tls, reset_after=65536)
-            time.sleep(0.6)
+            # the record appears when the worker notices (its next write): poll for it instead of guessing a delay
+            deadline = time.time() + 8
+            while time.time() < deadline:
+                new = srv.log()[mark:]
+                if re.search(rb"^(\S+) \[[^\]]*\] EXCEPTION (\w+)", new, re.M) or not srv.alive():
+                    break
+                time.sleep(0.1)
+            time.sleep(0.3)
             new = srv.log()[mark:]
             bad = []
             if not srv.alive():
@@ -262,9 +269,11 @@ def _shard_reset(shard, seed, tier):
                 break
         time.sleep(0.5)
         kids = srv.children()
-        if srv.alive() and kids:
-            time.sleep(1.0)
+        deadline = time.time() + 10
+        while srv.alive() and kids and time.time() < deadline:
+            time.sleep(0.3)
             kids = srv.children()
+        if srv.alive() and kids:
             if kids:
                 part.violation("reset|%s|workers-left" % mname, "worker/child processes still around after their clients went away: %r" % sorted(kids), {"kind": "reset", "mode": mname})
     finally:
